@@ -545,8 +545,8 @@ func falseImplies(h *ssa.Function, ri int, pred func(b *ssa.BasicBlock, extra []
 	return n > 0
 }
 
-// deepDefsCells is deepDefs that also sees through the fields of a record private to the function that reads them.
-func deepDefsCells(v ssa.Value, scope []*ssa.Function) []ssa.Value {
+// deepDefsRecords is deepDefs that also sees through the fields of a record private to the function that reads them.
+func deepDefsRecords(v ssa.Value, scope []*ssa.Function) []ssa.Value {
 	var out []ssa.Value
 	seen := map[ssa.Value]bool{}
 	var rec func(v ssa.Value, depth int)
